@@ -178,6 +178,154 @@ def sim_investigation_ctor(run, args, kw, lineno):
     return SObj('Simulation_Investigation', dict(ctor_args=tuple(args), ctor_kwargs=dict(kw)), name='full_data')
 
 
+# ---------------------------------------------------------------------------------------------------
+# Gillespie_SIS with return_full_data=True
+# ---------------------------------------------------------------------------------------------------
+# infection_times[x] / recovery_times[x] are lists of unbounded length.  Per node (PN): they alternate
+#   it[0] <= rt[0] <= it[1] <= rt[1] <= ...  inside [tmin, now],  status S <=> equally long, I <=> one more infection.
+# Per entry (ENT): the first k entries are the initial infections; every later entry j = (t, u, v) goes along an edge and
+# names, through the GHOST index maps ghost_pt / ghost_ps (entry index -> position in the infection list of v / of u),
+# the infection of v that happened at t and an infection of u at or before t that had not ended before t.  Different
+# entries name different infections, and #entries - k = #infection events (from the rows: each event moves I by +-1).
+
+def sis_pn(s, now):
+    it, rt = s.infection_times, s.recovery_times
+    stv = s.status.val
+    tmin = s.old.tmin
+    inf0 = Gi.is_init_inf(s)
+
+    def one(x):
+        a, b = it.lens[x], rt.lens[x]
+        return And(a >= 0, b >= 0, it.dom[x] == (a >= 1), rt.dom[x] == (b >= 1),
+                   (stv[x] == SC('S')) == (a == b), (stv[x] == SC('I')) == (a == b + 1),
+                   Implies(inf0(x), And(a >= 1, it.vals[x][0] == tmin)),
+                   so.forall_idx(a, lambda i: And(tmin <= it.vals[x][i], it.vals[x][i] <= now)),
+                   so.forall_idx(b, lambda i: And(it.vals[x][i] <= rt.vals[x][i], rt.vals[x][i] <= now)),
+                   so.forall_idx(a - 1, lambda i: rt.vals[x][i] <= it.vals[x][i + 1]))
+    return so.forall(so.U(), one)
+
+
+def sis_entry_named(s, j):
+    """the ghost maps name the infection of the target at that time and an infection of the source covering that time"""
+    it, rt = s.infection_times, s.recovery_times
+    Tr = s.transmissions
+    TD = Tr.esort.D
+    e = Tr.a[j]
+    u, v, t = TD.src(e), TD.tgt(e), TD.time(e)
+    p, q = s.ghost_pt.val[j], s.ghost_ps.val[j]
+    return And(0 <= p, p < it.lens[v], it.vals[v][p] == t, Implies(Gi.is_init_inf(s)(v), p >= 1),
+               0 <= q, q < it.lens[u], it.vals[u][q] <= t, Implies(q < rt.lens[u], t <= rt.vals[u][q]))
+
+
+def sis_ent(s, now, upto):
+    it = s.infection_times
+    Tr = s.transmissions
+    TD = Tr.esort.D
+    II = s.initial_infecteds
+    k = II.n
+    G = s.G
+    tmin = s.old.tmin
+    e = lambda j: Tr.a[j]
+    return And(
+        Tr.n >= k, tmin <= now,
+        so.forall_idx(Tr.n, lambda j: And(
+            TD.has_src(e(j)) == (j >= k), tmin <= TD.time(e(j)), TD.time(e(j)) <= now,
+            Implies(j < k, And(TD.tgt(e(j)) == II.a[j], TD.time(e(j)) == tmin)),
+            Implies(j >= k, G.adj(TD.src(e(j)), TD.tgt(e(j)))))),
+        so.forall_idx(upto, lambda j: sis_entry_named(s, j), lo=k),
+        so.forall_idx(Tr.n - 1, lambda j: TD.time(e(j)) <= TD.time(e(j + 1))),
+        so.forall_idx(upto, lambda j: so.forall_idx(upto, lambda j2: Implies(
+            And(j != j2, TD.tgt(e(j)) == TD.tgt(e(j2))), s.ghost_pt.val[j] != s.ghost_pt.val[j2]), lo=k), lo=k))
+
+
+def sis_count(s):
+    """#sourced entries = #infection events so far: every row moves I by +1 (infection) or -1 (recovery)"""
+    return 2 * (s.transmissions.n - s.initial_infecteds.n) == (s.times.n - 1) + (s.I.last() - s.I.a[0])
+
+
+def sis_inv_loop0(s, it_):
+    it, rt = s.infection_times, s.recovery_times
+    Tr = s.transmissions
+    TD = Tr.esort.D
+    II = s.initial_infecteds
+    tmin = s.old.tmin
+    U = so.U()
+    return And(Gi.sis_inv_loop0(s, it_),
+               Tr.n == it_.i,
+               so.forall_idx(Tr.n, lambda j: And(Not(TD.has_src(Tr.a[j])), TD.tgt(Tr.a[j]) == II.a[j], TD.time(Tr.a[j]) == tmin)),
+               so.forall(U, lambda x: And(it.dom[x] == it_.done(x), it.lens[x] == If(it_.done(x), 1, 0),
+                                          Implies(it_.done(x), it.vals[x][0] == tmin),
+                                          Not(rt.dom[x]), rt.lens[x] == 0)))
+
+
+def sis_inv_main(s, it_):
+    now = s.times.last()
+    return And(Gi.sis_main_inv(s, it_), sis_pn(s, now), sis_ent(s, now, s.transmissions.n), sis_count(s))
+
+
+def sis_ghost_update(s, it_):
+    """a pass that appended an entry (t, u, v): it names the newest infection of v and the current infection of u"""
+    it = s.infection_times
+    Tr = s.transmissions
+    TD = Tr.esort.D
+    grew = Tr.n == it_.head.transmissions.n + 1
+    j = Tr.n - 1
+    e = Tr.a[j]
+    pt, ps = s.ghost_pt, s.ghost_ps
+    pt.val = If(grew, z3.Store(pt.val, j, it.lens[TD.tgt(e)] - 1), pt.val)
+    ps.val = If(grew, z3.Store(ps.val, j, it.lens[TD.src(e)] - 1), ps.val)
+
+
+class _NodeHistorySIS:
+    """opaque result of _transform_to_node_history_(..., SIR=False): the SIS branch of that function is NOT under contract
+    (bounded native stand-in only); what is decided here is which objects it is given"""
+
+    def __init__(self, bound):
+        self.bound = bound
+
+
+def sis_post(old, s, ret):
+    if not (isinstance(ret, SObj) and ret.cls == 'Simulation_Investigation'):
+        return BoolVal(False)
+    a = ret.f.get('ctor_args')
+    kw = ret.f.get('ctor_kwargs') or {}
+    if not (isinstance(a, tuple) and len(a) == 3):
+        return BoolVal(False)
+    Gv, hist, trans = a
+    if Gv is not old.G or trans is not s.transmissions or not isinstance(hist, _NodeHistorySIS):
+        return BoolVal(False)
+    b = hist.bound
+    sir = b.get('SIR')
+    handed = (b.get('infection_times') is s.infection_times and b.get('recovery_times') is s.recovery_times
+              and z3.is_expr(sir) and z3.is_false(z3.simplify(sir))
+              and z3.is_expr(b.get('tmin')) and z3.is_true(z3.simplify(b.get('tmin') == old.tmin)))
+    now = s.times.last()
+    return And(BoolVal(bool(handed)), sis_pn(s, now), sis_ent(s, now, s.transmissions.n), sis_count(s),
+               BoolVal(_is_statuses(kw.get('possible_statuses'), ['S', 'I'])))
+
+
+def sis_contracts():
+    cs = []
+    base = {c.qualname: c for c in Gi.contracts()}
+    for q, c in base.items():
+        if q not in ('Gillespie_SIS', 'Gillespie_SIR'):
+            c.verify = False
+            cs.append(c)
+    cs.append(Contract(F, '_transform_to_node_history_', cases=[], verify=False,
+                       make_ret=lambda run, sv: _NodeHistorySIS({k: getattr(sv, k) for k in ('infection_times', 'recovery_times', 'tmin', 'SIR')}),
+                       note='assumed: opaque result for SIR=False'))
+    g = base['Gillespie_SIS']
+    cases = [x for x in Gi.gillespie_cases(sir=False, full=True) if x.name in ('list-unweighted', 'list-weighted')]
+    cs.append(Contract(F, 'Gillespie_SIS', cases=cases, requires=g.requires, axioms=g.axioms,
+        loops={0: sis_inv_loop0, 1: g.loops[1], 2: g.loops[2],
+               3: LoopSpec(sis_inv_main, lemmas=Gi.sum_lemmas, havoc_names=('ghost_pt', 'ghost_ps'), ghost_update=sis_ghost_update),
+               4: g.loops[4], 5: g.loops[5]},
+        sites=g.sites, sites_strict=g.sites_strict, locals_=g.locals_, local_sorts=g.local_sorts,
+        ghost_locals={'ghost_pt': T.dict_of('I', 'I'), 'ghost_ps': T.dict_of('I', 'I')},
+        ensures=sis_post))
+    return cs
+
+
 def install(lib):
     lib.extra_mod['EoN.Simulation_Investigation'] = sim_investigation_ctor
 
